@@ -28,6 +28,34 @@ func VsH_Plotter() {
 	asked[0], wantMine[0] = true, firstMine
 	K := vsBound("envactions")
 	rounds := 0
+	keeperStopped := false
+	inEnv := false
+	lockCount := 0
+	// second yield point: between the backend's Plot() returning and the plotter's step 3 taking stateLock, one more
+	// request (on the space that just plotted) may get in
+	vsSetLockHook(func(lock string) {
+		if inEnv || lock != "capacity.SpaceKeeper.stateLock" {
+			return
+		}
+		lockCount++
+		if lockCount != 2 { // 1: step 1 of the first plot, 2: step 3 of the first plot
+			return
+		}
+		inEnv = true
+		a := vsFork(4, "late.action") // plot, mine, stop on the plotting space, or nothing
+		if a < 3 {
+			err := sk.ActOnWorkSpace(vsSids[0], engine.ActionType(a))
+			if err == nil {
+				switch engine.ActionType(a) {
+				case engine.Plot, engine.Mine:
+					stopped[0], asked[0], wantMine[0] = false, true, a == int(engine.Mine)
+				case engine.Stop:
+					stopped[0], asked[0], wantMine[0] = true, false, false
+				}
+			}
+		}
+		inEnv = false
+	})
 	env := func(d *vsDB) {
 		rounds++
 		if stopped[d.idx] {
@@ -55,9 +83,16 @@ func VsH_Plotter() {
 		}
 		vsAssert(!vsAnyLockHeld(), "plotter-holds-no-lock-while-plotting")
 		if rounds == 1 {
+			inEnv = true
 			for j := 0; j < K; j++ {
-				a := vsFork(6, "env.action")
+				a := vsFork(7, "env.action")
 				if a == 5 {
+					break
+				}
+				if a == 6 { // stop the keeper service while the plot is in progress
+					sk.BaseService.Start() // mark started (OnStart: wallet unlocked; goroutines are not spawned by the engine)
+					vsAssert(sk.Stop() == nil, "keeper-stop-returns")
+					keeperStopped = true
 					break
 				}
 				t := vsFork(n, "env.target")
@@ -91,6 +126,7 @@ func VsH_Plotter() {
 				}
 			}
 		}
+		inEnv = false
 		// contract of the backend: StopPlot makes Plot return unfinished; otherwise it may finish or abort
 		if d.stopCalls > 0 {
 			d.plotted = false
@@ -102,7 +138,13 @@ func VsH_Plotter() {
 		dbs[i].onPlot = env
 	}
 	returned := vsRunUntilBlocked(func() { sk.spacePlotter() })
-	vsAssert(!returned, "plotter-keeps-running-until-stopped")
+	vsSetLockHook(nil)
+	vsAssert(returned == keeperStopped, "plotter-keeps-running-until-stopped-and-exits-when-stopped")
+	if keeperStopped {
+		vsAssert(!vsAnyLockHeld(), "locks-released-after-keeper-stop")
+		vsReach("keeper-stopped")
+		return
+	}
 	if dbs[0].plotting || dbs[1].plotting {
 		// the plotter thread is parked inside Plot(): a request issued at the yield point blocked (reported as a
 		// blocking-while-locked event by the engine); the quiescence obligations below do not apply
